@@ -141,6 +141,10 @@ def main(tier, replay):
         "of enable_cache / store_only_basic_bins_in_cache between set_ups are not part of the histories; x/y origin shifts are refused by the "
         "matrix and not generated",
         "on-the-fly projector on grids whose first plane is not 0: compared fully only once build/fixes/C04-4.diff is in /repo",
+        "extra columns/rows in x/y are not combined with x/y-anisotropic voxels: proj_Siddon also reads the voxel with x and y exchanged "
+        "(for its 90-degrees symmetries, used or not) and reads outside an image whose centred x and y extents differ in voxels when "
+        "voxel_size.x != voxel_size.y (seen as a crash of the repaired tree on planes 1..1, y -3..4, x -5..5, voxels 29.7 x 37.1 mm); "
+        "not generated, not keyed",
     ]
     if audit:
         vlib.proof_coverage(chk, audit, "cd lean && lake build StirVerif stirdriver && lake env lean ../build/out/Audit_C04.lean")
